@@ -25,6 +25,7 @@ META = {
     "not_decided": "net-zero allocation over all operation histories; aliasing-induced double frees beyond the guarded cases",
     "assumptions": ["element types stored in Array/HashTable are relocatable by byte copy"],
 }
+META["explanation"] += " " + "(O13) a constructor of QExpression / Value assigns an owning union member only over the zero state left by the union's default initialiser, never after another union member was written by the initialiser list."
 
 ALLOWED_ALLOC_CLASSES = {"Qentem::Array", "Qentem::String", "Qentem::StringStream", "Qentem::HashTable", "Qentem::HArray",
                          "Qentem::HList", "Qentem::Tags::TagBit"}
@@ -105,6 +106,40 @@ def run(ctx):
         trivial = set(names) <= {"Variable", "RawVariable"}
         ok = "Deallocate" in cs and (trivial or ("Dispose" in cs and cs.index("Dispose") < cs.index("Deallocate")))
         r.ob(cl.q, "case " + ",".join(names), ok, "calls %s" % cs, cl.loc(stmts[0]))
+    rules.append(r)
+
+    # ---------------- O13 constructors of the tagged unions: no assignment into an owning member over raw bits
+    r = Rule("O13-rawinit", "a constructor assigns an owning union member only over the zero state its default initialiser left", floor=4)
+    for cls, owning_members in (("Qentem::QExpression", {"SubExpressions"}), ("Qentem::Value", {"object_", "array_", "string_"})):
+        union_members = set()
+        for rec in m.records:
+            if rec.get("union") and rec.get("q", "").startswith(cls + "::") and not rec.get("spec"):
+                union_members |= set(fl["n"] for fl in rec.get("fields", []))
+        if not (owning_members <= union_members):
+            r.broke("%s: union members %s not found (have %s)" % (cls, sorted(owning_members), sorted(union_members)))
+            continue
+        for f in m.functions:
+            if f.inst or f.cls != cls or f.kind not in ("ctor", "copyctor", "movector") or not f.cfg:
+                continue
+            assigned = []
+            for x in f.walk():
+                n = f.nodes[x]
+                if n["k"] in ("BinaryOperator", "CXXOperatorCallExpr") and n.get("op") == "=":
+                    lhs = f.call_args(x)[0] if n["k"] == "CXXOperatorCallExpr" else n["ch"][0]
+                    ln = f.nodes[f.strip(lhs)]
+                    if ln["k"] in ("MemberExpr", "CXXDependentScopeMemberExpr") and ln.get("n") in owning_members:
+                        base = ln.get("ch", [])
+                        b0 = f.nodes[f.strip(base[0])] if base else {}
+                        if not base or b0.get("k") == "CXXThisExpr" or (b0.get("k") == "MemberExpr" and b0.get("anon")):
+                            assigned.append((x, ln["n"]))
+            if not assigned:
+                continue
+            ctx.note_fn(f)
+            raw = [i_["field"] for i_ in (f.d.get("inits") or []) if i_.get("written") and i_.get("field") in union_members]
+            for (x, name) in assigned:
+                ok = not [w for w in raw if w != name]
+                r.ob(f.sig, "%s = ..." % name, ok, "the union holds %s when `%s` is assigned" % (
+                    "the zero state of its default initialiser" if ok else "the raw bits written by the initialiser of `%s`: the assignment disposes and releases them as if they were this object's own block" % raw[0], name), f.loc(x))
     rules.append(r)
 
     # ---------------- O2e containers dispose their elements
